@@ -64,8 +64,8 @@ func c10Total(c *vrep.Ctx) {
 	if shape == 4 {
 		ts = []float64{0, 0.8, 1}
 	}
-	if shape == 3 && !c.Thorough() {
-		ts = []float64{0, 0.5, 0.8, 1 - 1e-13, math.Nextafter(1, 0), 1} // quick tier: six of the nine
+	if shape == 3 && c.Param("ts", "six") == "six" {
+		ts = []float64{0, 0.5, 0.8, 1 - 1e-13, math.Nextafter(1, 0), 1} // six of the nine (ts=all: all nine)
 	}
 	cls := make([]*Classifier, len(ts))
 	for i, t := range ts {
